@@ -946,3 +946,49 @@ V("C18", "affinity-no-free", PC,
   ("        CPU_FREE(mask);\n        if (errno != EINVAL)", "        if (errno != EINVAL)"), "fires:C18.R4")
 V("C18", "getpriority-errno-not-cleared", XC,
   ("    int priority;\n    errno = 0;\n", "    int priority;\n"), "fires:C18.R4")
+
+# ----------------------------------------------------------------- round 2 (seed-driven rules)
+V("C06", "status-regex-search-unanchored", L,
+  [("_num_threads_re=re.compile(br'^Threads:\\t(\\d+)', re.MULTILINE)",
+    "_num_threads_re=re.compile(br'Threads:\\t(\\d+)')"),
+   ("return int(_num_threads_re.findall(data)[0])",
+    "return int(_num_threads_re.search(data).group(1))")], "fires:C06.R5")
+V("C06", "benign-status-regex-search-anchored", L,
+  ("return int(_num_threads_re.findall(data)[0])",
+   "return int(_num_threads_re.search(data).group(1))"), "silent")
+V("C06", "blkio-guard-off-by-one", L,
+  ("        try:\n            ret['blkio_ticks'] = fields[39]  # aka 'delayacct_blkio_ticks'\n        except IndexError:",
+   "        if len(fields) >= 39:\n            ret['blkio_ticks'] = fields[39]  # aka 'delayacct_blkio_ticks'\n        else:"),
+  "fires:C06.R8")
+V("C06", "benign-blkio-length-guard", L,
+  ("        try:\n            ret['blkio_ticks'] = fields[39]  # aka 'delayacct_blkio_ticks'\n        except IndexError:",
+   "        if len(fields) > 39:\n            ret['blkio_ticks'] = fields[39]  # aka 'delayacct_blkio_ticks'\n        else:"),
+  "silent")
+V("C06", "blkio-handler-wrong-class", L,
+  ("            ret['blkio_ticks'] = fields[39]  # aka 'delayacct_blkio_ticks'\n        except IndexError:",
+   "            ret['blkio_ticks'] = fields[39]  # aka 'delayacct_blkio_ticks'\n        except KeyError:"),
+  "fires:C06.R8")
+V("C08", "sreclaimable-defaulted", L,
+  [("        lru_inactive_file = mems[b'Inactive(file):']\n        slab_reclaimable = mems[b'SReclaimable:']\n",
+    "        lru_inactive_file = mems[b'Inactive(file):']\n"),
+   ("        return fallback\n    try:\n        f = open_binary(f\"{get_procfs_path()}/zoneinfo\")",
+    "        return fallback\n    slab_reclaimable = mems.get(b'SReclaimable:', 0)\n    try:\n        f = open_binary(f\"{get_procfs_path()}/zoneinfo\")")],
+  "fires:C08.R5")
+V("C08", "missing-key-handler-falls-through", L,
+  ("            \" approximation for calculating available memory\"\n        )\n        return fallback\n",
+   "            \" approximation for calculating available memory\"\n        )\n        lru_active_file = lru_inactive_file = slab_reclaimable = 0\n"),
+  "fires:C08.R5")
+V("C10", "purge-fast-path-on-count", C,
+  ("        old_dict = self.cache[name]\n        gone_keys = set(old_dict.keys()) - set(input_dict.keys())",
+   "        old_dict = self.cache[name]\n        if len(old_dict) == len(input_dict):\n            return\n        gone_keys = set(old_dict.keys()) - set(input_dict.keys())"),
+  "fires:C10.R3")
+V("C10", "lock-inside-run-check-outside", C,
+  [("            self._add_dict(input_dict, name)\n            return input_dict\n\n        self._remove_dead_reminders(input_dict, name)",
+    "            with self.lock:\n                self._add_dict(input_dict, name)\n            return input_dict\n\n        with self.lock:\n            return self._update(input_dict, name)\n\n    def _update(self, input_dict, name):\n        self._remove_dead_reminders(input_dict, name)"),
+   ("    with _wn.lock:\n        return _wn.run(input_dict, name)", "    return _wn.run(input_dict, name)")],
+  "fires:C10.R1")
+V("C10", "benign-lock-moved-into-run", C,
+  [("        if name not in self.cache:\n            # This was the first call.\n            self._add_dict(input_dict, name)\n            return input_dict\n\n        self._remove_dead_reminders(input_dict, name)",
+    "        with self.lock:\n            return self._run(input_dict, name)\n\n    def _run(self, input_dict, name):\n        if name not in self.cache:\n            # This was the first call.\n            self._add_dict(input_dict, name)\n            return input_dict\n\n        self._remove_dead_reminders(input_dict, name)"),
+   ("    with _wn.lock:\n        return _wn.run(input_dict, name)", "    return _wn.run(input_dict, name)")],
+  "silent")
